@@ -192,6 +192,52 @@ func C11(r *explore.Run) {
 	})
 }
 
+// modePieces are valid statements that each switch the lexer or the parser into some special mode
+// ('>>' splitting inside types, keywords as field names after '.', hints, parameters, DDL/DML, THEN RETURN ...):
+// state that survives the ';' shows up as a list that is rejected although every piece is accepted.
+var modePieces = []string{
+	"SELECT STRUCT<>()", "SELECT 1 >> 2", "SELECT 2 >= 1", "SELECT CAST(1 AS ARRAY<ARRAY<INT64>>)", "SELECT ARRAY<STRUCT<a INT64>>[]", "SELECT a <> b",
+	"SELECT @p", "SELECT t.select FROM t", "SELECT a.1 FROM a", "@{a=1} SELECT 1", "SELECT 1 FROM t@{FORCE_INDEX=i}", "SELECT * FROM t TABLESAMPLE BERNOULLI (1 PERCENT)",
+	"DROP TABLE t", "CREATE TABLE t (a ARRAY<INT64>) PRIMARY KEY ()", "ALTER TABLE t ADD COLUMN b INT64", "CREATE INDEX i ON t (a)",
+	"INSERT INTO t (a) VALUES (@p) THEN RETURN a", "UPDATE t SET a = 1 WHERE a >= @p", "DELETE t WHERE TRUE", "CALL p(@p)",
+	"SELECT 1 LIMIT 1 OFFSET 2", "SELECT CASE a WHEN 1 THEN 2 ELSE 3 END", "SELECT INTERVAL 1 DAY", "SELECT NEW a.b {c: 1}", "(SELECT 1) UNION ALL (SELECT 2)",
+	"FROM t |> WHERE a", "GRANT SELECT ON TABLE t TO ROLE r", "CREATE VIEW v SQL SECURITY INVOKER AS SELECT 1", "SELECT 1 FOR UPDATE",
+}
+
+func modeLists(r *explore.Run) {
+	P := modePieces
+	n := 3
+	if r.Tier == "thorough" {
+		n = 4
+	}
+	r.Explore(explore.Options{Space: "mode-switching-lists", MaxDev: -1, SplitLen: 1,
+		Bound: fmt.Sprintf("all lists of 1..%d of %d valid mode-switching statements joined by ';' through ParseStatements/ParseDDLs/ParseDMLs", n, len(P))}, func(c *explore.Ctx) {
+		var parts []string
+		for i := 0; i < n; i++ {
+			k := c.ChooseFree(len(P) + 1)
+			if k == 0 {
+				break
+			}
+			parts = append(parts, P[k-1])
+		}
+		if len(parts) == 0 {
+			return
+		}
+		x := strings.Join(parts, "; ")
+		c.Input(x)
+		c.OutcomeStr(x)
+		for _, pr := range [][2]string{{"ParseStatements", "ParseStatement"}, {"ParseDDLs", "ParseDDL"}, {"ParseDMLs", "ParseDML"}} {
+			v, nt := checkListCompose(pr[0], pr[1], x)
+			for sig, d := range v {
+				c.Violation(sig, x, d)
+			}
+			if nt {
+				c.Nontrivial(explore.Hash(x))
+			}
+		}
+	})
+}
+
 // composeEdits: every single-edit neighbour of a sentence of G that a single-statement entry point
 // accepts stand-alone must also be accepted as a member of a list (this reaches every
 // end-of-input-sensitive rule, e.g. a trailing comma inserted at the very end).
@@ -232,5 +278,5 @@ func composeEdits(r *explore.Run) {
 }
 
 func init() {
-	Registry["C11"] = func(r *explore.Run) { C11(r); composeEdits(r) }
+	Registry["C11"] = func(r *explore.Run) { C11(r); modeLists(r); composeEdits(r) }
 }
